@@ -31,8 +31,8 @@ CLAIMS = {
             "conflict detection of facade accesses end-to-end needs revm's journal and is not covered"),
     "C12": ("per-function obligations: policy inert before Prague, exact otherwise (U19 for_spec); the guard halts exactly when the frame's TARGET carries a designator, static / pre-Petersburg errors keep upstream's order, otherwise it IS upstream create after one host call (U19 guarded_create); the instruction table is revm's with exactly CREATE and CREATE2 replaced by the two guard instantiations, and it is swapped in iff the guard is on and the fork is Prague or later (U21).",
             "bit-identical behaviour of every other opcode rests on revm (assumed)"),
-    "C13": ("per-function obligations: required_after = suffix strictly after txid (U22), both paths query with the logical txid (U06 call permission, U27 execute_incarnation), violation iff some surviving delegated debit has final < min(before, future) (U24 has_reserve_violation), the charged-revert sequence revert/re-bump create nonce/refund/floor/reimburse resp. commit, in revm's post-execution order (U24 enforce_reserve, pre/post_execution); the journal scan reports exactly the delegated accounts with a surviving debit after the checkpoint (the single root value transfer excluded), each with its present balance and the balance reconstructed for the point just before its FIRST such debit (U23 delegated_debits_since E1/E2), where balance_before_entry undoes the journal suffix by the inverse of each entry's forward balance effect (U23, with a verified inverse lemma); build_schedule yields, aligned with the account's txids, the saturating suffix sums of max_balance_spending (U256::MAX when that overflows) accumulated from the last transaction backwards (U25; a bounded Kani run over the same extracted text complements it, labelled bounded).",
-            "revm's journal and handler default steps are stand-ins; ReservePlanner::required_after / sender_index (OnceLock + DashMap laziness) are the uninterpreted function req in the handler proof"),
+    "C13": ("per-function obligations: required_after = suffix strictly after txid (U22), both paths query with the logical txid (U06 call permission, U27 execute_incarnation), violation iff some surviving delegated debit has final < min(before, future) (U24 has_reserve_violation), the charged-revert sequence revert/re-bump create nonce/refund/floor/reimburse resp. commit, in revm's post-execution order (U24 enforce_reserve, pre/post_execution); the journal scan reports exactly the delegated accounts with a surviving debit after the checkpoint (the single root value transfer excluded), each with its present balance and the balance reconstructed for the point just before its FIRST such debit (U23 delegated_debits_since E1/E2), where balance_before_entry undoes the journal suffix by the inverse of each entry's forward balance effect (U23, with a verified inverse lemma); build_schedule yields, aligned with the account's txids, the saturating suffix sums of max_balance_spending (U256::MAX when that overflows) accumulated from the last transaction backwards, and ReservePlanner::required_after returns that suffix sum for the account's first transaction strictly after txid (zero if none) whichever caller initialised the lazily cached schedule (U25: OnceLock cells as rely/guarantee invariants; a bounded Kani run of build_schedule over the same extracted text complements it, labelled bounded).",
+            "revm's journal and handler default steps are stand-ins; in the handler proof (U24) the planner is still the uninterpreted function req: that req is what U25 proves required_after returns is a paper link; sender_index is a contract-only stub"),
     "C14": ("per-function obligations: a non-elected call returns the 'only once' error and has no permission to reach either execution path; all three public entry points go through run_once (U06).",
             "uniqueness of a successful CAS on the never-reset flag is an assumed contract of the atomic; the take_result_and_state sentence is not decided"),
     "C15": ("per-function obligations for all interference: no index at or beyond the limit handed out, the only cursor writes are CAS c->c+1 and fetch_min (U01); the frontier never passes a transaction that has not completed an execution (U03 ExecutionFrontier); rewind publishes its stamp before making the index claimable (U03); stale validations fail the finality gate (U04). Lemma L1 and a bounded sequential Kani part complement it.",
